@@ -79,6 +79,8 @@ func (queueSlice) Corpus() [][]string {
 		cat(hdr, rep("P", 3), []string{"P last"}, rep("P", 4), rep("C", 12), []string{"X", "P", "C", "P", "C"}),
 		// low latency: no back-pressure
 		cat([]string{"init mode=ll n=1"}, rep("P", 16), rep("C", 9), []string{"X"}, rep("P", 3), rep("C", 30)),
+		// fix-F28: end of stream in the Low-Latency loop: three parts, nil marker, consumer drains, both wait for Close
+		cat([]string{"init mode=ll n=1"}, rep("P", 6), []string{"P last"}, rep("P", 4), rep("C", 14), []string{"X", "P", "C", "P", "C"}),
 		// cancel while the consumer is parked and the producer throttled
 		cat(hdr, rep("P", 11), []string{"X", "P", "C", "C", "C", "C", "C", "C", "C", "C", "C"}),
 		// threshold 0 and 2
@@ -364,17 +366,18 @@ func (r *qRunner) producer(t *qThread) {
 		if r.killed.Load() {
 			return
 		}
-		if r.mode == "ll" {
-			continue // runLowLatency: no back-pressure
-		}
 		if choice == "last" {
-			// `if pl.Endlist && pl.Segments[len-1] == seg { push(nil); <-ctx.Done(); return }`
+			// fillSegmentQueue: `if pl.Endlist && pl.Segments[len-1] == seg { push(nil); <-ctx.Done(); return }`
+			// runLowLatency (fix-F28): `if pl.PreloadHint == nil { if pl.Endlist { push(nil); <-ctx.Done(); return } … }`
 			r.pushCalls = append(r.pushCalls, -1)
 			r.q.VerifQueuePush(-1)
 			r.pushDone++
 			t.yield(r, "eoswait")
 			<-t.ctx.Done()
 			return
+		}
+		if r.mode == "ll" {
+			continue // runLowLatency: no back-pressure
 		}
 		// runTraditional
 		if !r.q.VerifQueueWaitUntilSizeIsBelow(t.ctx, r.n) {
